@@ -243,6 +243,40 @@ def enum_case(case):
         shutil.rmtree(root, ignore_errors=True)
 
 
+def manifest_enum_case(case):
+    """several manifests of the same kind in different directories + a codemod that adds a dependency: the manifest that
+    receives it must not depend on the order in which the directories are listed"""
+    rng = random.Random(case["seed"])
+    seeds = e2e.load_seeds()
+    cid = case["codemod"]
+    name, body = case["manifest"]
+    # at least two directories of the same depth (between depths the walk order is fixed), sometimes deeper ones too
+    dirs = rng.choice([["a", "zz"], ["lib", "b"], ["svc/api", "svc/worker"], ["x/y/z", "x/y/a"]]) + rng.sample(["c", "d/e", "svc/cron"], rng.randint(0, 2))
+    files = {"m.py": rng.choice(seeds[cid])}
+    for d in dirs:
+        files[f"{d}/{name}"] = body
+    root = common.tmpdir("c11m")
+    real = os.scandir
+    try:
+        outs = []
+        for k, mode in enumerate(["asc", "desc", "shuffle"]):
+            proj = root / f"e{k}" / "proj"
+            e2e.write_project(proj, files)
+            os.scandir = lambda p=".", _m=mode: _Scan(real(p), _m, case["seed"])
+            try:
+                r = e2e.run(proj, ["--codemod-include", cid])
+            finally:
+                os.scandir = real
+            rep = e2e.normalise_report(r["report"]) if r["report"] else None
+            tree = {k2: v.decode("utf-8", "replace") for k2, v in e2e.read_tree(proj).items()}
+            outs.append({"mode": mode, "rc": r["rc"], "paths": [cs["path"] for res in (r["report"] or {}).get("results", []) for cs in res["changeset"]],
+                         "sig": json.dumps([rep and rep.get("results"), tree], sort_keys=True, default=str)})
+        return {"codemod": cid, "dirs": dirs, "runs": [{k: v for k, v in o.items() if k != "sig"} | {"same": o["sig"] == outs[0]["sig"]} for o in outs]}
+    finally:
+        os.scandir = real
+        shutil.rmtree(root, ignore_errors=True)
+
+
 SIB_CODEMODS = ["pixee:python/numpy-nan-equality", "pixee:python/fix-assert-tuple", "pixee:python/use-walrus-if", "pixee:python/fix-mutable-params",
                 "pixee:python/remove-debug-breakpoint", "pixee:python/literal-or-new-object-identity", "pixee:python/exception-without-raise",
                 "pixee:python/str-concat-in-sequence-literals"]
@@ -254,6 +288,9 @@ def search(ctx):
     root = common.tmpdir("c11h")
     seeds = e2e.load_seeds()
     files = {f"h{i}.py": rng.choice(seeds[c]) for i, c in enumerate(["pixee:python/numpy-nan-equality", "pixee:python/fix-assert-tuple", "pixee:python/use-walrus-if"] * 2)}
+    # paths that differ only in letter case (a case-sensitive file system keeps them apart; an ordering that folds case would tie)
+    for name in ("pkg/Config.py", "pkg/config.py", "pkg/CONFIG.py", "Mod.py", "mod.py"):
+        files[name] = rng.choice(seeds["pixee:python/fix-assert-tuple"])
     e2e.write_project(root / "p", files)
     prog = root / "prog.py"
     prog.write_text(HASHSEED_PROG % str(common.VERIF / "harness"))
@@ -322,3 +359,20 @@ def search(ctx):
             elif not run["same"]:
                 ctx.fail({"kind": "enumeration-order-dependent", "codemod": r["codemod"]},
                          f"{r['codemod']}: directory entries handed out in {run['mode']} order give changesets {run['order']}, in ascending order {r['runs'][0]['order']}", {"case": c})
+
+    # manifest discovery order
+    mans = [("requirements.txt", "requests\n"), ("setup.cfg", "[metadata]\nname = x\n\n[options]\ninstall_requires =\n    requests\n"),
+            ("pyproject.toml", '[project]\nname = "x"\nversion = "0.1"\ndependencies = [\n    "requests",\n]\n')]
+    cases = [{"codemod": rng.choice(["pixee:python/use-defusedxml", "pixee:python/flask-enable-csrf-protection"]), "manifest": rng.choice(mans), "seed": rng.randint(0, 10**9)}
+             for _ in range(ctx.pick(3, 12))]
+    for c, r in zip(cases, impl.pool_map(manifest_enum_case, cases, procs=8)):
+        if r[0] != "ok":
+            ctx.broke("c11 manifest-enumeration harness", r[1]); continue
+        r = r[1]
+        for run in r["runs"]:
+            ctx.search_case("manifest-enumeration", {"codemod": r["codemod"], "manifest": c["manifest"][0], "dirs": r["dirs"], "mode": run["mode"]}, len(run["paths"]) >= 2)
+            if run["rc"] != ["exit", 0]:
+                ctx.fail({"kind": "cli-crash", "codemod": r["codemod"]}, f"CLI failed {run['rc']}", {"case": c})
+            elif not run["same"]:
+                ctx.fail({"kind": "enumeration-order-dependent", "what": "manifest-choice", "manifest": c["manifest"][0]},
+                         f"{c['manifest'][0]} in {r['dirs']}: with directory entries in {run['mode']} order the run changes {run['paths']}, in ascending order {r['runs'][0]['paths']}", {"case": c})
